@@ -72,6 +72,7 @@ type scase struct {
 
 func cat(t []string) string {
 	s := strings.Join(t, "")
+	s = strings.ReplaceAll(s, "U2", "\u00e9") // one character of two bytes
 	return strings.ReplaceAll(s, "NL", "\n")
 }
 
@@ -361,7 +362,7 @@ func runSchedule(t *testing.T, tw *trace.Writer, c *scase, idx int, res *vh.Resu
 			switch o.Op {
 			case "ev", "evbad", "evsp":
 				n++
-				text := strings.Join(c.Lines[o.K-1].Toks, "")
+				text := strings.ReplaceAll(strings.Join(c.Lines[o.K-1].Toks, ""), "U2", "\u00e9")
 				x := mkWant(o.K, n, o.S)
 				if o.Op == "evbad" { // one more tag, after the line's own, with a byte that is not UTF-8
 					text += ",o:Jos\xe9"
